@@ -29,6 +29,7 @@ def dispatch (R : Type) [Num R] [Inhabited R] [NatCast R] (kind : String) (j : J
   | "concat" => Drv.handleConcat R j
   | "forecast" => Drv.handleForecast j
   | "ridge_fit" => Drv.handleRidgeFit R j
+  | "ridge_ops" => Drv.handleRidgeOps R j
   | "online_train" => Drv.handleOnlineTrain R j
   | "ip_fit" => Drv.handleIpFit R j
   | "metrics" => Drv.handleMetrics R j
